@@ -43,6 +43,10 @@ class SourceModel:
             raise AnalysisError(f"source does not parse: {e}")
         from . import alpha
         self.alpha_applied = alpha.normalise(self.tree)     # locals renamed back to the reference names (behaviour-preserving; see alpha.py)
+        from . import canon
+        self.canon_applied = canon.restore(self.tree)       # behaviour-preserving rewrites restored to the reference's spelling (see canon.py)
+        if self.canon_applied:
+            self.tree = ast.parse(ast.unparse(ast.fix_missing_locations(self.tree)))      # consistent positions again
         self.classes = {}
         self.functions = {}       # qualified name -> FunctionDef
         self.module_assigns = {}  # name -> value node (last assignment at module level)
